@@ -126,4 +126,24 @@ class C11(IterCheck):
     pid = "C11"
     prop_module = "SigHook.Props.C11"
     extra_modules = ("SigHook.Props.C11b",)
+
+    def correspond(self, tier, seed, rng):
+        res = super().correspond(tier, seed, rng)
+        # the "Pending only with an armed wake-up" half of the property does not need close() at all:
+        # also run the ordinary delivery / poll mixes (stale wake-up bytes, batches that overlap)
+        class Mixed(IterCheck):
+            pid = "C11"
+            profile = "mixed"
+        m = Mixed()
+        m.proof_broken = getattr(self, "proof_broken", None)
+        mres = m.correspond(tier, seed, rng)
+        res["failures"] += mres["failures"]
+        res["evaluations"] += mres["evaluations"]
+        res["distinct_nontrivial"] += mres["distinct_nontrivial"]
+        res["distribution"]["mixed_profile_scenarios"] = mres["evaluations"]
+        uniq = {}
+        for f in res["failures"]:
+            uniq.setdefault(f["key"], f)
+        res["failures"] = list(uniq.values())
+        return res
     profile = "close"
